@@ -1,8 +1,139 @@
-import Aergo.Model.Trie
+/-
+C10 — State trie: content-addressed, history-independent, persistent key-value map.
+
+"The sparse Merkle state trie behaves as a map from 32-byte keys to values: after any sequence of
+batches of updates and deletions ... reading a key returns the value last written or nothing if it
+was deleted or never written (deleting an absent key changes nothing), and the root hash depends
+only on the resulting set of key-value pairs, not on the order, batching or interleaved deletions
+by which it was reached."
+
+Model: `Aergo.Model.Trie` (`update`, `maybeAddShortcutToKV`, `maybeMoveUpShortcut`, `get` of
+pkg/trie transcribed; tied to the real code by the c10 correspondence harness, roots compared as
+hash terms). Everything below is for every trie height `H`, every number of batches, every batch
+size: induction over the height and over the list of batches. A batch is what `Trie.Update`
+requires: keys of `H` bits, strictly ascending, non-empty (`WF H b ∧ b ≠ []`).
+
+Not carried by a theorem (exercised on the real code by the harness only): the 4-level batch
+layout and its (de)serialisation, Commit / a fresh instance opened at a stored root / older roots
+staying readable, the goroutines of `updateParallel`.
+-/
+import Aergo.Lemmas.TrieCanon
+
 namespace Aergo.Props.C10
 open Aergo.Trie
+variable {V : Type}
 
-/-- placeholder while the proofs are being built -/
-theorem get_empty {V : Type} (k : List Bool) : get (T.empty : T V) k = none := rfl
+/-- The trie after applying the batches `bs` in order to an empty trie (`Update` per batch). -/
+def runTrie (H : Nat) (bs : List (List (KV V))) : T V :=
+  bs.foldl (fun t b => updateRoot H t b) .empty
+
+/-- The specification: a plain map, each batch overriding what it mentions. -/
+def specMap (bs : List (List (KV V))) : List Bool → Option V :=
+  bs.foldl applyF (fun _ => none)
+
+/-- A legal history: every batch is sorted, of the right key length, and non-empty. -/
+def Legal (H : Nat) (bs : List (List (KV V))) : Prop := ∀ b ∈ bs, WF H b ∧ b ≠ []
+
+/-- One `Update` on a canonical trie: the result is canonical and reads as the overridden map
+(any height, any tree, any sorted batch). -/
+theorem update_refines_map (H : Nat) (t : T V) (b : List (KV V)) (c : Canon H t) (w : WF H b) (hne : b ≠ []) :
+    Canon H (updateRoot H t b) ∧ ∀ k, k.length = H → get (updateRoot H t b) k = applyF (get t) b k :=
+  let g := update_good H t b c w hne
+  ⟨g.canon, g.sem⟩
+
+private theorem run_from (H : Nat) (bs : List (List (KV V))) (hl : Legal H bs) :
+    ∀ (t : T V) (f : List Bool → Option V), Canon H t → (∀ k, k.length = H → get t k = f k) →
+      Canon H (bs.foldl (fun t b => updateRoot H t b) t) ∧
+      ∀ k, k.length = H → get (bs.foldl (fun t b => updateRoot H t b) t) k = bs.foldl applyF f k := by
+  induction bs with
+  | nil => intro t f c hs; exact ⟨c, hs⟩
+  | cons b bs ih =>
+    intro t f c hs
+    obtain ⟨w, hne⟩ := hl b (by simp)
+    obtain ⟨c', s'⟩ := update_refines_map H t b c w hne
+    simp only [List.foldl_cons]
+    refine ih (fun b' hb' => hl b' (List.mem_cons_of_mem _ hb')) _ _ c' ?_
+    intro k hk
+    rw [s' k hk]
+    exact applyF_congr b k (hs k hk)
+
+/-- **Read your writes**: after any legal history, reading a key returns the value last written, or
+nothing if it was deleted or never written. -/
+theorem read_your_writes (H : Nat) (bs : List (List (KV V))) (hl : Legal H bs) (k : List Bool) (hk : k.length = H) :
+    get (runTrie H bs) k = specMap bs k :=
+  (run_from H bs hl .empty (fun _ => none) (by simp [Canon]) (by simp [Trie.get])).2 k hk
+
+/-- Every reachable trie is canonical (a lone key always sits at the highest node of its subtree). -/
+theorem reachable_canonical (H : Nat) (bs : List (List (KV V))) (hl : Legal H bs) : Canon H (runTrie H bs) :=
+  (run_from H bs hl .empty (fun _ => none) (by simp [Canon]) (by simp [Trie.get])).1
+
+/-- **History independence**: two legal histories that result in the same key-value pairs build the
+same tree — whatever the order, the batching, or interleaved deletions. -/
+theorem history_independent (H : Nat) (bs bs' : List (List (KV V))) (hl : Legal H bs) (hl' : Legal H bs')
+    (hsame : ∀ k, k.length = H → specMap bs k = specMap bs' k) : runTrie H bs = runTrie H bs' := by
+  apply canon_unique H _ _ (reachable_canonical H bs hl) (reachable_canonical H bs' hl')
+  intro k hk
+  rw [read_your_writes H bs hl k hk, read_your_writes H bs' hl' k hk, hsame k hk]
+
+/-- ... hence anything computed from the tree — in particular the root hash term the node hashes
+— depends only on the resulting set of pairs. -/
+theorem root_depends_only_on_content {R : Type} (root : T V → R) (H : Nat) (bs bs' : List (List (KV V)))
+    (hl : Legal H bs) (hl' : Legal H bs')
+    (hsame : ∀ k, k.length = H → specMap bs k = specMap bs' k) : root (runTrie H bs) = root (runTrie H bs') := by
+  rw [history_independent H bs bs' hl hl' hsame]
+
+/-- **Deleting an absent key changes nothing** (the tree, hence the root, is identical). -/
+theorem delete_absent_noop (H : Nat) (t : T V) (c : Canon H t) (k : List Bool) (hk : k.length = H)
+    (habs : get t k = none) : updateRoot H t [(k, none)] = t := by
+  have w : WF H [(k, (none : Option V))] := ⟨by simp [hk], by simp⟩
+  obtain ⟨c', s⟩ := update_refines_map H t [(k, none)] c w (by simp)
+  apply canon_unique H _ _ c' c
+  intro k' hk'
+  rw [s k' hk']
+  simp only [applyF, look]
+  split <;> simp_all
+
+/-- Applying the same batch twice is the same as applying it once. -/
+theorem update_idempotent (H : Nat) (t : T V) (c : Canon H t) (b : List (KV V)) (w : WF H b) (hne : b ≠ []) :
+    updateRoot H (updateRoot H t b) b = updateRoot H t b := by
+  obtain ⟨c1, s1⟩ := update_refines_map H t b c w hne
+  obtain ⟨c2, s2⟩ := update_refines_map H _ b c1 w hne
+  apply canon_unique H _ _ c2 c1
+  intro k hk
+  rw [s2 k hk]
+  simp only [applyF]
+  cases hl : look b k with
+  | none => rfl
+  | some ov =>
+    have := s1 k hk
+    simp only [applyF, hl] at this
+    exact this.symm
+
+/-- The tree is determined by its contents: two canonical tries that answer every read alike are equal. -/
+theorem content_determines_tree (H : Nat) (t t' : T V) (c : Canon H t) (c' : Canon H t')
+    (h : ∀ k, k.length = H → get t k = get t' k) : t = t' := canon_unique H t t' c c' h
+
+/-- `maybeAddShortcutToKV` (with its index loop) is the sorted insertion of the shortcut into the batch. -/
+theorem addShortcut_is_sorted_insert (H : Nat) (sk : List Bool) (sv : V) (b : List (KV V)) (w : WF H b) (hne : b ≠ [])
+    (hsk : sk.length = H) :
+    WF H (addShortcut b sk sv) ∧ ∀ k, applyF (fun _ => none) (addShortcut b sk sv) k = applyF (get (T.leaf sk sv)) b k := by
+  rw [addShortcut_eq sk sv b w hne]
+  exact ⟨addSc_wf sv w hsk, look_addSc sk sv b w.2⟩
+
+/-! Non-vacuity (tests on concrete values, not proofs of the general claims): a height-3 history
+with an insertion on both sides of a deleted shortcut — the shape that was broken before the
+`fix:` commit — is legal, and equals the one-batch history with the same contents. -/
+
+private def k (a b c : Bool) : List Bool := [a, b, c]
+
+example : Legal 3 ([[(k false true false, some 7)],
+                    [(k false false true, some 1), (k false true false, none), (k true false false, some 3)]] : List (List (KV Nat))) := by
+  simp [Legal, WF, k, cmp]
+  rintro a b (⟨rfl, _⟩ | ⟨rfl, _⟩ | ⟨rfl, _⟩) <;> rfl
+
+example : runTrie 3 ([[(k false true false, some 7)],
+                      [(k false false true, some 1), (k false true false, none), (k true false false, some 3)]] : List (List (KV Nat)))
+        = runTrie 3 [[(k false false true, some 1), (k true false false, some 3)]] := by
+  decide
 
 end Aergo.Props.C10
